@@ -43,7 +43,7 @@ func vfReaddirplusOneEntrySize(attrPresent bool, name string) (min int, max int)
 
 func TestVerif_C26(t *testing.T) {
 	rec := evid.New("C26")
-	rec.Rule = "directories of {0,1,2,5,17,60} entries with name lengths {1,255,mixed} of files/dirs/symlinks; READDIR count and READDIRPLUS maxcount over every value 0..700 (step 1 quick for small dirs, step 7 otherwise) then powers of two +-1 up to 64KiB, cookies followed to eof; attr/dir cache on/off; distinct = (proc, dir size, limit class, outcome) tuples"
+	rec.Rule = "directories of {0,1,2,5,17,60} entries with name lengths {1,255,mixed} of files/dirs/symlinks; READDIR count and READDIRPLUS maxcount over every value 0..700 (step 1 quick for small dirs, step 7 otherwise) then powers of two +-1 up to 64KiB, cookies followed to eof; attr/dir cache on/off; export transfer sizes {default,100,256,1000,4096}; distinct = (proc, dir size, limit class, outcome) tuples"
 	defer rec.Write()
 	sizes := []int{0, 1, 2, 5, 17, 60}
 	for di, n := range sizes {
@@ -178,7 +178,9 @@ func vfC26Dir(rec *evid.Rec, di, n int, nameKind string, cache bool) {
 		}
 	}
 	sort.Strings(names)
-	srv, err := vfNewSrv(fs, ExportOptions{AttrCacheTimeout: map[bool]time.Duration{false: 1, true: 5e9}[cache], EnableDirCache: cache})
+	// the export's transfer size is a READ/WRITE matter: listings honour the client's count whatever it is
+	ts := []int{0, 256, 1000, 0, 4096, 100}[(di*2+len(nameKind))%6]
+	srv, err := vfNewSrv(fs, ExportOptions{AttrCacheTimeout: map[bool]time.Duration{false: 1, true: 5e9}[cache], EnableDirCache: cache, TransferSize: ts})
 	if err != nil {
 		rec.Infra(err.Error())
 		return
